@@ -144,9 +144,10 @@ Definition step_op (rs : regs) (op : list Z) : regs * list Z :=
       if g_frozen g then (rs, [out_code EFrozen]) else (setr rs r (add_node g n a), [0])
   | 3 :: r :: kind :: ht :: t :: he :: e :: l =>
       let g := getr rs r in
-      let es := if kind =? 0 then pairs_of l else if kind =? 1 then path_pairs l
-                else if kind =? 2 then star_pairs l else cycle_pairs l in
-      let '(g', o) := add_interactions_from g es (oz ht t) (if kind =? 0 then oz he e else None) in
+      (* kinds 5, 6, 7: the module-level helpers dn.add_path / add_star / add_cycle, which pass a vanishing time on *)
+      let es := if kind =? 0 then pairs_of l else if (kind =? 1) || (kind =? 5) then path_pairs l
+                else if (kind =? 2) || (kind =? 6) then star_pairs l else cycle_pairs l in
+      let '(g', o) := add_interactions_from g es (oz ht t) (if (kind =? 0) || (5 <=? kind) then oz he e else None) in
       (setr rs r g', [out_code o])
   | 4 :: r :: kind :: _ =>
       let g := getr rs r in
@@ -234,6 +235,8 @@ Definition step_op (rs : regs) (op : list Z) : regs * list Z :=
            end)
   (* sample < 1 draws source/target pairs at random (numpy): not modelled; the implementation side checks the subset relation *)
   | 65 :: _ => (rs, [1])
+  (* multi-megabyte file round trips: checked on the implementation side only (sizes no list-based model can run) *)
+  | 67 :: _ => (rs, [1])
   | 63 :: l => (rs, enc_annotated (annotate_paths (dec_paths (S (length l)) l)))
   | 64 :: l => (rs, flat_pairs (compact_timeslot l))
   (* occurrence names: [66; t; |u|; u...; v...] -> name of (u,t), name of (v,t), node decoded from the first,
